@@ -226,7 +226,9 @@ def body_case_ds(E, entry, k, dictsp, nvars, idim, sp, base, t, j1, j2, j3, shuf
     log = []
     fn = make_fn(base, nvars, idim, log, True, True, False)
     pts = (CASES_MIXED if mixed else CASES)[:k]
-    cases = [{"a": a, "b": b} for a, b in pts] if cbool(dictsp) else list(pts)
+    # dict spelling: every other case lists its keys in the opposite order
+    cases = [({"a": a, "b": b} if i % 2 == 0 else {"b": b, "a": a}) for i, (a, b) in enumerate(pts)] \
+        if cbool(dictsp) else list(pts)
     fn_args = None if cbool(dictsp) else ("a", "b")
     var_names = ["x", "y"][:nvars]
     var_dims = spell_var_dims(sp, nvars, idim)
@@ -329,7 +331,10 @@ def body_auto(E, kind, n1, n2, base, vary=False):
             return {"x": x, "y": (("w",), arr([x + 1, x + 2]))}
 
         combos = {"a": A[:n1], "b": B[:n2]}
-        ds = cr.combo_runner_to_ds(fn, combos, var_names=None, verbosity=0)
+        ds = cr.combo_runner_to_ds(fn, combos, var_names=None,
+                                   attrs={"foo": "bar"}, verbosity=0)
+        if dict(ds.attrs).get("foo") != "bar":
+            return False                      # extra attributes are recorded whatever the output description
         allw = sorted(set(w for a in combos["a"] for w in wlabels(a)))
         for a in combos["a"]:
             for b in combos["b"]:
